@@ -27,7 +27,7 @@ def project(lines, names=None):
             c = r["cfg"]
             cfg = {"n": c["n"], "kind": c["kind"], "deps": c["deps"], "roots": c["roots"],
                    "watch": c.get("watch", False), "inh": c.get("inh") or [[] for _ in range(c["n"])],
-                   "rec": c.get("rec", []), "id": c.get("id", "")}
+                   "rec": c.get("rec", []), "slow": c.get("slow", []), "id": c.get("id", "")}
             kinds = c["kind"]
             launched, exited, executed, sig = [], [], {}, False
             out.append({"e": "cfg", "cfg": cfg})
